@@ -161,7 +161,15 @@ func (r *Run) hung(rep **RunReport, x any) {
 	if !ok {
 		panic(x)
 	}
-	r.viol("C12", "non-termination", "hang", "ergo %v burned %.0f s of CPU without reaching a system call", e.Argv, spinCPU)
+	if e.Blocked && r.Sc.Prop == "C20" {
+		// in a C20 history the file being opened is the result path: something
+		// that is not a regular file was taken for one
+		r.viol("C20", "accepted-invalid", "hang-on-special-file", "ergo %v sat inside open(2) for a whole watchdog period: a FIFO or device was accepted as a result file", e.Argv)
+	} else if e.Blocked {
+		r.viol("C12", "non-termination", "hang", "ergo %v sat inside open(2) for a whole watchdog period (a FIFO or device taken for a file)", e.Argv)
+	} else {
+		r.viol("C12", "non-termination", "hang", "ergo %v burned %.0f s of CPU without reaching a system call", e.Argv, spinCPU)
+	}
 	*rep = r.Report()
 }
 
@@ -185,6 +193,11 @@ func runSeqGenerated(bin, prop string, seed uint64) (rep *RunReport) {
 			r.ExecStep(st)
 		}
 		if prop == "C20" {
+			// things that exist and are neither regular files nor directories
+			for _, st := range []Step{{File: &FileOp{Path: "out/pipe", Kind: "fifo"}}, {File: &FileOp{Path: "lnk/devnull", Kind: "symlink", Target: "/dev/null"}}} {
+				sc.Steps = append(sc.Steps, st)
+				r.ExecStep(st)
+			}
 			for _, l := range [][2]string{{"lnk/tofile", "../r0.txt"}, {"lnk/todir", "../out"}, {"lnk/dangling", "nowhere"}, {"lnk/outside", "/etc/hostname"}} {
 				st := Step{File: &FileOp{Path: l[0], Kind: "symlink", Target: l[1]}}
 				sc.Steps = append(sc.Steps, st)
